@@ -6,6 +6,9 @@
 #include <sys/stat.h>
 #include <sys/wait.h>
 #include <unistd.h>
+#include <poll.h>
+#include <spawn.h>
+extern char **environ;
 #include <dlfcn.h>
 #include <elf.h>
 #include <string.h>
@@ -239,31 +242,44 @@ int run_cmd(const std::vector<std::string> &argv, Bytes *out, Bytes *errout, con
 	int po[2], pe[2];
 	if (pipe(po) || pipe(pe)) return -1000;
 	fflush(stdout); fflush(stderr);
-	pid_t pid = fork();
-	if (pid == 0) {
-		dup2(po[1], 1); dup2(pe[1], 2);
-		close(po[0]); close(po[1]); close(pe[0]); close(pe[1]);
-		int dn = open("/dev/null", O_RDONLY); if (dn >= 0) dup2(dn, 0);
-		for (auto &e : env) putenv(strdup(e.c_str()));
-		std::vector<char *> av;
-		for (auto &a : argv) av.push_back((char *)a.c_str());
-		av.push_back(nullptr);
-		execv(av[0], av.data());
-		_exit(127);
+	// posix_spawn (vfork-style clone), not fork: copying the page tables of a sanitizer process costs tens of
+	// milliseconds of kernel time per call and serialises the workers on the kernel's mm locks
+	posix_spawn_file_actions_t fa;
+	posix_spawn_file_actions_init(&fa);
+	posix_spawn_file_actions_adddup2(&fa, po[1], 1);
+	posix_spawn_file_actions_adddup2(&fa, pe[1], 2);
+	posix_spawn_file_actions_addclose(&fa, po[0]); posix_spawn_file_actions_addclose(&fa, pe[0]);
+	if (po[1] > 2) posix_spawn_file_actions_addclose(&fa, po[1]);
+	if (pe[1] > 2) posix_spawn_file_actions_addclose(&fa, pe[1]);
+	posix_spawn_file_actions_addopen(&fa, 0, "/dev/null", O_RDONLY, 0);
+	std::vector<char *> av;
+	for (auto &a : argv) av.push_back((char *)a.c_str());
+	av.push_back(nullptr);
+	std::vector<std::string> envs;
+	for (char **e = environ; e && *e; e++) {
+		std::string kv = *e;
+		bool over = false;
+		for (auto &x : env) { size_t eq = x.find('='); if (eq != std::string::npos && kv.compare(0, eq + 1, x, 0, eq + 1) == 0) over = true; }
+		if (!over) envs.push_back(kv);
 	}
+	for (auto &x : env) envs.push_back(x);
+	std::vector<char *> ev;
+	for (auto &x : envs) ev.push_back((char *)x.c_str());
+	ev.push_back(nullptr);
+	pid_t pid = -1;
+	int sr = posix_spawn(&pid, av[0], &fa, nullptr, av.data(), ev.data());
+	posix_spawn_file_actions_destroy(&fa);
+	if (sr != 0) { close(po[0]); close(po[1]); close(pe[0]); close(pe[1]); return 127; }
 	close(po[1]); close(pe[1]);
 	// read both pipes (poll-less: stdout first then stderr would deadlock on big stderr; use nonblocking loop)
 	fcntl(po[0], F_SETFL, O_NONBLOCK); fcntl(pe[0], F_SETFL, O_NONBLOCK);
 	bool oo = true, eo = true;
 	char buf[65536];
 	while (oo || eo) {
-		fd_set rs; FD_ZERO(&rs);
-		int mx = 0;
-		if (oo) { FD_SET(po[0], &rs); mx = po[0] > mx ? po[0] : mx; }
-		if (eo) { FD_SET(pe[0], &rs); mx = pe[0] > mx ? pe[0] : mx; }
-		if (select(mx + 1, &rs, nullptr, nullptr, nullptr) < 0) { if (errno == EINTR) continue; break; }
-		if (oo && FD_ISSET(po[0], &rs)) { ssize_t n = read(po[0], buf, sizeof buf); if (n > 0) { if (out) out->append(buf, n); } else if (n == 0 || (errno != EAGAIN && errno != EINTR)) oo = false; }
-		if (eo && FD_ISSET(pe[0], &rs)) { ssize_t n = read(pe[0], buf, sizeof buf); if (n > 0) { if (errout) errout->append(buf, n); } else if (n == 0 || (errno != EAGAIN && errno != EINTR)) eo = false; }
+		struct pollfd pf[2] = { { oo ? po[0] : -1, POLLIN, 0 }, { eo ? pe[0] : -1, POLLIN, 0 } };
+		if (poll(pf, 2, -1) < 0) { if (errno == EINTR) continue; break; }
+		if (oo && (pf[0].revents & (POLLIN | POLLHUP | POLLERR))) { ssize_t n = read(po[0], buf, sizeof buf); if (n > 0) { if (out) out->append(buf, n); } else if (n == 0 || (errno != EAGAIN && errno != EINTR)) oo = false; }
+		if (eo && (pf[1].revents & (POLLIN | POLLHUP | POLLERR))) { ssize_t n = read(pe[0], buf, sizeof buf); if (n > 0) { if (errout) errout->append(buf, n); } else if (n == 0 || (errno != EAGAIN && errno != EINTR)) eo = false; }
 	}
 	close(po[0]); close(pe[0]);
 	int st = 0;
